@@ -214,6 +214,50 @@ def suite_two_clients(ctx):
     return c15.suite_two_clients(ctx)
 
 
+def suite_after_refused(ctx):
+    """the switches in force are the ones the configuration shows, also after a configuration change was refused (and rolled back) earlier on this client:
+    every way of changing a switch afterwards - set_config, set_configs, assignment into client.config - decides how the next outcome is delivered"""
+    import itertools
+    from .. import clientlib as cl
+    from udsoncan.exceptions import ConfigError
+    s = Suite('after_refused')
+    replies = {'negative': b'\x7f\x11\x33', 'invalid': b'\x7f\x11', 'unexpected': b'\x50\x01'}
+    keys = ('exception_on_negative_response', 'exception_on_invalid_response', 'exception_on_unexpected_response')
+    refusals = [('none', lambda c: None), ('set_config(standard_version, 1999)', lambda c: c.set_config('standard_version', 1999)),
+                ('set_configs({tolerate_zero_padding: False, standard_version: 2012})', lambda c: c.set_configs({'tolerate_zero_padding': False, 'standard_version': 2012}))]
+    ways = [('set_config', lambda c, sw: [c.set_config(k, v) for k, v in zip(keys, sw)]), ('set_configs', lambda c, sw: c.set_configs(dict(zip(keys, sw)))),
+            ('assignment into client.config', lambda c, sw: [c.config.__setitem__(k, v) for k, v in zip(keys, sw)])]
+    for rname, refuse in refusals:
+        for wname, way in ways:
+            for sw0 in ((True, True, True), (False, False, False)):
+                for sw in itertools.product((True, False), repeat=3):
+                    for kind, reply in replies.items():
+                        client, conn = cl.make_client(cl.Cfg(rt=64, p2=32, p2s=32, exc=sw0))
+                        try:
+                            refuse(client)
+                            refused = rname == 'none'
+                        except ConfigError:
+                            refused = True
+                        way(client, sw)
+                        conn.script = [(1, reply)]
+                        how, verdict, flags, payload, exc, r = cl.observe_outer(conn, lambda: client.ecu_reset(1))
+                        s.evaluations += 1
+                        label = 'ecu_reset(1) <- %s; client built with switches %s, then %s, then switches set to %s by %s' % (reply.hex(), sw0, rname, sw, wname)
+                        s.distinct.add(label)
+                        s.count('%s / %s' % (rname.split('(')[0], wname))
+                        on = sw[('negative', 'invalid', 'unexpected').index(kind)]
+                        shown = tuple(client.config[k] for k in keys)
+                        if not refused:
+                            s.fail({'site': 'set_config', 'input': label, 'observed': 'the change was accepted', 'required': 'ConfigError'})
+                        elif shown != sw:
+                            s.fail({'site': 'set_config', 'input': label, 'observed': 'client.config shows %s' % (shown,), 'required': str(sw)})
+                        elif verdict.split(':')[0] != kind or how != ('exc' if on else 'ret'):
+                            s.fail({'site': 'ecu_reset', 'input': label, 'class': 'after a refused configuration change', 'observed': '%s %s' % (how, verdict),
+                                    'required': '%s, %s (client.config shows the switch %s)' % (kind, 'raised' if on else 'returned with its flag', 'on' if on else 'off')})
+    s.exhaustive = True
+    return s
+
+
 def suite_callw(ctx):
     """whole client calls of every service family, delivered by the decorator under a random switch setting, against the model's `deliver ∘ callWithI`
     (udsdrv callw sw=…): the correspondence `Props/C08Call.callWith_switch_independent` rests on; metamorphic oracle against the same call with all switches on"""
@@ -232,4 +276,4 @@ def suite_user_code(ctx):
     return core.suite_user_code('subclass_exceptions', 'decorated client method')
 
 
-SUITES = [suite_call, suite_callw, suite_reentrant, suite_blocks, suite_two_clients, suite_hist, suite_user_code]
+SUITES = [suite_call, suite_callw, suite_reentrant, suite_blocks, suite_two_clients, suite_hist, suite_after_refused, suite_user_code]
